@@ -93,6 +93,7 @@ static int deduplicate_blocks(block_writer_default_t *wr, sqfs_u32 flags, sqfs_u
 
 		ret = check_file_range_equal(wr->file, wr->scratch,
 					     SCRATCH_SIZE, loc_a, loc_b, sz);
+		VERIF_EVENT(21, i, ret == 0 ? 0 : (ret > 0 ? 1 : 2), count);
 		if (ret == 0)
 			break;
 		if (ret < 0)
@@ -102,6 +103,8 @@ static int deduplicate_blocks(block_writer_default_t *wr, sqfs_u32 flags, sqfs_u
 	*out = blocks[i].offset;
 	if (i >= wr->file_start)
 		return 0;
+
+	VERIF_EVENT(22, i, count, wr->file_start);
 
 	if (count >= (wr->file_start - i)) {
 		wr->blocks.used = i + count;
